@@ -31,4 +31,8 @@ CFG = dict(
         "IEEE rounding: theorems are over ℝ",
     ],
     assumptions=["float64 arithmetic in Go on amd64 is IEEE-754 without FMA contraction"],
+    manifest=dict(
+        text="Lean 4 theorems over ℝ about the SDF closures regenerated from math/sdf/*.go and line3D.go on every run: sign and zero-set characterisation, 1-Lipschitz bound (|f p − f q| ≤ |p − q|, proved through Mathlib's Euclidean space; box/rounded box/rounded cylinder via a 1-Lipschitz signed distance to the orthant with an intermediate-value argument; capsule via the minimising property of the clamped projection), exact distance (sphere, plane: both directions; box, capsule: lower bound), union/intersection/subtraction sign laws and Lipschitz closure for any number of operands, translation. Regenerated definitions run at Float and compared bit-for-bit with the Go closures; reference-distance oracles on the Go outputs.",
+        note="Trusted: Lean kernel; propext/Classical.choice/Quot.sound; translator and vector table; hand model of Union/Intersect (corresponded); harness; reference SDFs in the driver. Not proved: rounded cone sign/Lipschitz (oracle only); 'attained' direction of exact distance for box/capsule; IEEE rounding.",
+        technique="Lean 4 proof over a model regenerated from source (translator) + Float bit-exact correspondence"),
 )
